@@ -6,7 +6,9 @@ the thread's buffer is observed (SpyList) and handed to the model; everything do
 when, the record, what a capture returns, every export - is computed by the model and compared.  The segments appended by
 line/control/bell/clear/show_cursor are predicted by the model, not observed.  On "plain" consoles (markup / emoji /
 highlight off) what print of strings / out / rule without title / print() append is DERIVED by the model as well
-(Model/ConsolePrint.lean, request c15_derive) and compared with what rich appended.  A running Live display is driven
+(Model/ConsolePrint.lean, request c15_derive) and compared with what rich appended; for log(*strings) with the time and
+path columns on or off the characters of the LogRender grid are derived too (Model/ConsoleLog.lean = the composition layer's
+table model with text cells, request c15_log; the time display and the caller are inputs).  A running Live display is driven
 through its public API; the console calls rich makes on its behalf (show_cursor, `with console:`, print, line, control) are
 logged by instance-level wrappers (Tracer) and become the model's operations.  save_text / save_html are export_* plus
 a file that is read back.
@@ -444,6 +446,31 @@ def _optbool(b):
     return "-" if b is None else enc_bool(b)
 
 
+try:
+    from props.c01 import FLAGS as LAYOUT_FLAGS  # frames / text / table variant flags of the composition layer
+except Exception:  # pragma: no cover
+    LAYOUT_FLAGS = "0,00000000,0000000"
+
+
+def derive_log_case(ctx, cfg, c, op, segs, time_shown_before):
+    """log(*strings, sep=, end=) on a plain console: the model derives the characters of the LogRender grid
+    (Model/ConsoleLog.lean: C07 table + C02/C05 text in its cells).  The time display and the caller are inputs computed
+    here, not read from rich: FIXED_DT through the console's default "[%X]", blank when the same display was shown by
+    an earlier log of this console; the caller is the Tracer wrapper in lib_c15.py."""
+    kw = op[2]
+    if not all(r[0] == "s" for r in op[1]) or not set(kw) <= {"sep", "end"}:
+        return
+    if cfg["log_time"]:
+        disp = FIXED_DT.strftime("[%X]")
+        time_cell = "=" + enc_str(" " * len(disp) if time_shown_before else disp)
+    else:
+        time_cell = "-"
+    path_cell = "=" + enc_str(f"lib_c15.py:{c._c15_tracer.call_line}") if cfg.get("log_path") else "-"
+    args = [LAYOUT_FLAGS, cfg["width"], time_cell, enc_str_list([r[1] for r in op[1]]), enc_str(kw.get("sep", " ")), enc_str(kw.get("end", "\n")), path_cell]
+    ctx.case("c15_log", args, "ok:" + enc_str("".join(s.text for s in segs)), shape=f"time={cfg['log_time']},path={bool(cfg.get('log_path'))}",
+             sample=f"width={cfg['width']} {op!r}" if len(repr(op)) < 200 else None)
+
+
 def derive_case(ctx, cfg, c, op, segs):
     """For the simple paths the model derives what is appended to the buffer: compare with what rich appended."""
     from rich.style import Style
@@ -501,6 +528,7 @@ def eval_history(ctx, cfg, ops, tag):
     outs = []  # one answer per harness operation
     desc = {"config": cfg, "ops": ops}
     live_on = False
+    time_shown = False
 
     since = []  # since the last clearing export: ("w", text written to the file) / ("c", text returned by a capture)
     caps = []  # open capture blocks
@@ -548,7 +576,12 @@ def eval_history(ctx, cfg, ops, tag):
             enc_ops.append(encode_op(op, segs, enc, theme))
             model_outs.append(out)
             if cfg.get("plain") and not live_on and not err:
-                derive_case(ctx, cfg, c, op, segs)
+                if k == "log":
+                    derive_log_case(ctx, cfg, c, op, segs, time_shown)
+                else:
+                    derive_case(ctx, cfg, c, op, segs)
+        if k == "log" and not err and cfg["log_time"]:
+            time_shown = True  # LogRender remembers the last time display, also when the log was captured
 
         # ---- direct evaluation of the property on what rich did
         if k == "end" and not caps:
@@ -602,6 +635,27 @@ def eval_history(ctx, cfg, ops, tag):
                 else:
                     want.extend((ch, None, None) for ch in s.text)
             ctx.check(got == want, "export_text(styles)", desc, f"styled export at op {i} does not decode to the recorded characters with their styles")
+            # what the file shows of the same record: the record's style rendered for the console's colour system, the
+            # colourless version under NO_COLOR, nothing without a colour system (export_styled_vs_file_without_colour)
+            from rich.console import COLOR_SYSTEMS as _CS
+
+            cs_now = None if cfg["color_system"] is None else _CS[cfg["color_system"]]
+            no_col = cfg["no_color"] if cfg["no_color"] is not None else "NO_COLOR" in cfg["environ"]
+            want_file = []
+            for s_ in rec:
+                if s_.is_control:
+                    continue
+                if s_.style and cs_now is not None:
+                    st_ = fresh(s_.style).without_color if no_col else fresh(s_.style)
+                    sg = st_._make_ansi_codes(cs_now) or None
+                    ln = None if cfg["legacy_windows"] else (st_.link or None)
+                    want_file.extend((ch, sg, ln) for ch in s_.text)
+                else:
+                    want_file.extend((ch, None, None) for ch in s_.text)
+            got_file = decode("".join(t for kind, t in since if kind == "w"))
+            ctx.check(got_file == want_file, "file vs record", desc, f"at op {i} the file does not decode to the recorded characters in "
+                      + ("no style (color_system None)" if cs_now is None else "their colourless styles (NO_COLOR)" if no_col else "their styles"))
+            ctx.note("styled_vs_file:" + ("none" if cs_now is None else "nocolor" if no_col else "colour"))
             if colour_on and not cfg["legacy_windows"]:
                 # the styled export is TRUECOLOR; on another colour system the file carries the downgraded colours
                 loose = (lambda l: l) if cfg["color_system"] == "truecolor" else (lambda l: [(ch, sg and loose_params(sg), ln) for ch, sg, ln in l])
@@ -938,8 +992,15 @@ def gen_plain_op(rng):
         if rng.random() < 0.2:
             kw["align"] = rng.choice(["left", "right"])
         return ("rule", ("s", ""), kw)
-    if r < 0.9:
+    if r < 0.86:
         return (rng.choice(["print0", "log0"]),)
+    if r < 0.95:
+        kw = {}
+        if rng.random() < 0.3:
+            kw["sep"] = rng.choice(["", "-"])
+        if rng.random() < 0.3:
+            kw["end"] = rng.choice(["", "\n\n", "!"])
+        return ("log", [("s", rng.choice(PLAIN_WORDS)) for _ in range(rng.choice([1, 1, 2]))], kw)
     return ("line", rng.choice([0, 1, 2]))
 
 
@@ -1007,7 +1068,9 @@ def run(ctx):
         "what print/log/rule/out append to the thread's buffer (rendering + split_and_crop_lines) is an input of the model, observed on the real "
         "console - except on plain consoles (markup/emoji/highlight off, justify None, console.style None) for print of strings, out, rule without "
         "title and print()/log() without objects, where Model/ConsolePrint.lean derives it from the models of C05 (Text), C02 (wrap), C13 (crop) and "
-        "C08 (rule text) with the variant flags of props.c02; log() with objects stays observed (LogRender builds a Table)",
+        "C08 (rule text) with the variant flags of props.c02; for log(*strings) the text of the appended segments is derived through the "
+        "composition layer (C01: C07 table + C02/C05 text cells, flags of props.c01), the strftime display of the injected clock and the caller "
+        "(Tracer wrapper, fixed line) being inputs; styles of log output and every other renderable stay observed",
         "escape codes are compared exactly apart from the random link ids (Style._ansi is keyed by colour system since fix c9ec5a8); only the "
         "comparison of the TRUECOLOR styled export with a file written for another colour system ignores the colour parameters",
         "visible text = non-control segment text; generated texts contain no C0 control codes or ESC; control segments contain only escape sequences / C0 codes",
@@ -1093,6 +1156,19 @@ def run(ctx):
         for chars in ["-", "ab", "あ", "a "]:
             eval_history(ctx, cfg, [("rule", ("s", ""), {"characters": chars})], "plain-small")
     ctx.note("plain_small", n_ex)
+    # log(*strings) with the time and path columns on / off, two logs in a row (the second time cell is blank)
+    for _ in range(120 if ctx.quick else 4000):
+        cfg = cfg_with(plain=True, width=rng.choice([1, 5, 12, 16, 20, 27, 40, 80]), log_time=rng.random() < 0.6, log_path=rng.random() < 0.6,
+                       color_system=rng.choice([None, "truecolor"]), force_terminal=rng.random() < 0.5, cm=False)
+        ops = []
+        for _ in range(rng.choice([1, 2, 3])):
+            kw = {}
+            if rng.random() < 0.25:
+                kw["end"] = rng.choice(["", "\n\n"])
+            if rng.random() < 0.25:
+                kw["sep"] = rng.choice(["", ", "])
+            ops.append(("log", [("s", rng.choice(PLAIN_WORDS + ["a longer message that has to be folded in its column", "x" * 30])) for _ in range(rng.choice([1, 1, 2, 3]))], kw))
+        eval_history(ctx, cfg, ops, "plain-log")
     ctx.flush()
 
     # ---- 4c. a running Live display around prints, captures and exports
@@ -1198,14 +1274,23 @@ MANIFEST = {
     "block returns character for character what the same operations write outside a capture, nothing reaches the file "
     "while the depth is >= 1, nothing is recorded; capture_block_transparent: with the repaired marks a block at any depth "
     "returns its own output and leaves the enclosing block untouched); capture_nesting (ONE theorem: on every well-bracketed "
-    "history, nested to any depth and possibly left open, the console refines a specification machine with one frame per open "
-    "block - each block returns exactly its own output, enclosing frames untouched, nothing reaches file or record meanwhile - "
+    "history of capture blocks AND `with console:` blocks, nested and interleaved in any way and possibly left open, the console "
+    "refines a specification machine with one frame per open capture block plus the held-back output of open `with console:` "
+    "blocks - each capture block returns exactly its own output, enclosing frames untouched, nothing reaches file or record "
+    "meanwhile, held-back output is written as one write when the depth returns to zero - "
     "plus, for arbitrary unbalanced sequences, totality, depth arithmetic, no write at non-zero depth of either sign, and what "
     "a surplus end_capture returns); export_html_document (any code_format containing {code} once keeps the code intact; the "
     "document with tags removed is template text + escaped exported text + template text; default template obligations proved "
     "on the table translated from rich/console.py each run); export_html_stylesheet (one rule per distinct CSS rule in first-use "
     "order numbered r1..rn, numbering injective, every class looked up in the final table, stylesheet lines); clear_semantics; "
-    "reachable_outside_empty. Proved for "
+    "reachable_outside_empty; export_styled_vs_file_without_colour (what the styled export means on NO_COLOR / colour-less "
+    "consoles: the file shows the colourless / unstyled version of the same stream); export_html_document_default_decoded "
+    "(whole default document, tags removed AND entities decoded = template text + exported text + template text; the template "
+    "is checked to contain no '&' on the translated table); print_plain_segments + export_text_of_prints (for print of plain "
+    "strings the derived segments carry exactly the C02 wrap of the joined text at the console width, lines joined by line "
+    "feeds, then `end`; so export_text of a history of such prints is the concatenation of the wrapped strings - composed "
+    "read-only from C05 render_view/inv_join, C02 wrap_lines_fit/wrap_fold_keeps_nonspace, C13 split_and_crop_refines and the "
+    "C01 line/piece bridge). Proved for "
     "the repaired variant, which is what /repo contains now (fixes 114bbe8, e488480, 1202b8a; b97fe77 for simplify); the witnesses "
     "old_capture_is_recorded, old_href_breaks_html, old_simplify_bell_in_html and nested_capture_steals (by evaluation) show rich 9.10.0 "
     "as found violating them. Tie: ~8k (quick) / ~250k (thorough) histories per run executed on real "
@@ -1216,15 +1301,16 @@ MANIFEST = {
     "get_html_style, link are parameters read off the real Style objects per case (their meaning is C03/C06). (2) What "
     "print/log/rule/out append to the buffer (rendering, split_and_crop_lines) is an input observed on the real console; only "
     "for print of strings / out / title-less rule / print() on plain consoles is it derived in the model (Model/ConsolePrint.lean, "
-    "compared with rich per operation; no theorem is stated about that derivation). log() with objects and every other "
-    "renderable stay observed. (3) 'Visible text of the file' is stated on structured pieces (escape wrapper / text / control), and HTML tags on "
+    "compared with rich per operation; print_plain_segments proves what its characters are for the default options, "
+    "end in {newline, empty}, width >= 2, and is conditional on the style reduction being defined, which the comparison shows "
+    "always holds). log(*strings) is derived as text only (c15_log); its styles and every other renderable stay observed. (3) 'Visible text of the file' is stated on structured pieces (escape wrapper / text / control), and HTML tags on "
     "structured fragments for which the string-level stripTags is proved; the string-level reading of ANSI escapes is done by the "
     "harness tokenizer only. (4) Escape codes are compared exactly except for the random link ids. "
-    "(5) `with console:` blocks (enterBuffer / exitBuffer) are in the model, the correspondence and record_tracks_file, but the "
-    "capture statements (capture_nesting, wellNested) exclude histories that contain them. A Live display is covered as the "
+    "(5) `with console:` blocks (enterBuffer / exitBuffer) are part of capture_nesting; the harness's twin-console oracle for "
+    "captures is not evaluated on histories that contain them (the correspondence is). A Live display is covered as the "
     "console calls rich makes for it; its own logic is C10's. In rich 9.10.0 as found (before fix 1202b8a) an inner end_capture returned the enclosing block's pending output (witness "
-    "nested_capture_steals, finding nested-capture-steals). (6) The whole-document theorem is at the tags-removed level (entity decoding is "
-    "proved for the code part); it needs the text before {code} to end outside a tag, proved for the default template. "
+    "nested_capture_steals, finding nested-capture-steals). (6) The whole-document theorem is decoded (tags removed and entities decoded) for the default template; for an arbitrary "
+    "code_format it is at the tags-removed level and needs the text before {code} to end outside a tag. "
     "(7) Single thread, is_jupyter False, pager out of scope; save_text/save_html are compared as export + file read back. "
     "Findings of this property, all repaired in /repo: capture-recorded (F17, fix 114bbe8), html-href-unescaped (fix e488480), "
     "nested-capture-steals (fix 1202b8a); the flag constants hold the repaired values.",
